@@ -176,6 +176,14 @@ def check(run):
     with quiet():
         multi = [vdesigns.multiclock(rng) for _ in range(30 if run.tier == 'quick' else 600)]
     judge(run, gather(run, multi), 'multiclock')
+    nested = []
+    with quiet():
+        for _ in range(60 if run.tier == 'quick' else 1500):
+            try:
+                nested.append(vdesigns.nested_names(rng))
+            except Exception:
+                run.cov['composite_build_failed'] = run.cov.get('composite_build_failed', 0) + 1
+    judge(run, gather(run, nested), 'nested')
     run.assumptions += ['front end implements the Verilog-2001 subset the emitters are allowed to produce; constructs it does not '
                         'implement are counted as unsupported, not judged',
                         'external IP wrappers (black boxes) are outside the catalogue']
